@@ -22,5 +22,25 @@ def contributions_nonneg(s):
     return s._pots is not None or all(s.payoffs[i] <= 0 for i in range(s.player_count))
 
 
+def dealing_has_street(s):
+    """cards are owed only during a street, and hole cards only on a street that prescribes them (or a draw)"""
+    owed = any(s.hole_dealing_statuses)
+    return (not owed) or (s.street_index is not None
+                          and (len(s.streets[s.street_index].hole_dealing_statuses) > 0
+                               or s.streets[s.street_index].draw_status))
+
+
+def hole_rows_aligned(s):
+    """each player's cards and their face-up flags have the same length"""
+    return all(len(s.hole_cards[i]) == len(s.hole_card_statuses[i]) for i in range(s.player_count))
+
+
+def showdown_street(s):
+    """a showdown queue exists only on the last street or when the players are all-in"""
+    return (not s.showdown_indices) or s.street_index is None or s.all_in_status \
+        or s.street_index == len(s.streets) - 1
+
+
 def inv08(s):
-    return actors_have_chips(s) and betting_has_street(s) and contributions_nonneg(s)
+    return (actors_have_chips(s) and betting_has_street(s) and contributions_nonneg(s)
+            and dealing_has_street(s) and hole_rows_aligned(s) and showdown_street(s))
